@@ -115,6 +115,17 @@ pub fn ref_run(p: &Program, sigs: &[Sig], script: &[Step]) -> RefRun {
     run(p, sigs, &mut env, Fuel::default())
 }
 
+/// Reference run over a repeating script with explicit fuel
+pub fn ref_run_fuel(p: &Program, sigs: &[Sig], script: &[Step], steps: usize, rows: usize) -> RefRun {
+    let mut env = ScriptEnv::new(script);
+    env.repeat_last = true;
+    run(p, sigs, &mut env, Fuel { steps, rows })
+}
+
+pub fn not_loaded(init: &ObsInit) -> Obs {
+    Obs { init: init.clone(), items: vec![], calls_after: vec![], log: vec![], exhausted: false, vars: vec![], key: None, draws: vec![], signal_names: vec![] }
+}
+
 /// Reference run over a script whose last step repeats for ever
 pub fn ref_run_repeat(p: &Program, sigs: &[Sig], script: &[Step]) -> RefRun {
     let mut env = ScriptEnv::new(script);
